@@ -220,10 +220,11 @@ def _elide(lines, empty_line):
     return lines
 
 
-def write_p8(version, code, mem, label=None, elide=False):
+def write_p8(version, code, mem, label=None, elide=False, elide_sfx=False):
     """Reference .p8 writer.  elide=False: all rows of all sections (older PICO-8); elide=True: trailing empty
     rows of gfx/gff/map/music are omitted and a section left without rows is omitted altogether (newer PICO-8);
-    elide='headers': likewise, but the header line of a section left without rows stays (hand-edited carts)."""
+    elide='headers': likewise, but the header line of a section left without rows stays (hand-edited carts).
+    elide_sfx: trailing sfx patterns nobody edited (no notes, speed 16) are omitted too, all but the first row."""
     keep_headers = elide == 'headers'
     out = [HEADER, b'version %d\n' % version, b'__lua__\n']
     text = p8scii_to_text(code).encode('utf-8')
@@ -250,7 +251,10 @@ def write_p8(version, code, mem, label=None, elide=False):
         out.append(b'__map__\n')
         out += mp
     out.append(b'__sfx__\n')
-    out += enc_sfx(mem[SFX:CODE])
+    sfx = enc_sfx(mem[SFX:CODE])
+    if elide_sfx:
+        sfx = sfx[:1] + _elide(sfx[1:], enc_sfx(bytes(64) + b'\x00\x10\x00\x00')[0])
+    out += sfx
     if music or not elide or keep_headers:
         out.append(b'__music__\n')
         out += music
